@@ -85,6 +85,10 @@ def make_data(d):
                 t += 1
             seen.add(tuple(x[i]))
     x = x.astype(np.float32)
+    if d.get("offset"):
+        # a large common offset changes no distance, hence no rbf kernel value, objective or selection (an rbf computed
+        # through ||a||^2 - 2<a,b> + ||b||^2 in float32 does change) - added after a seeded change was missed
+        x = x + np.float32(d["offset"])
     labels = (np.arange(n) * 10 + 3).astype(np.float32)
     nq = 3
     q = x[rng.integers(0, n, size=nq)].copy()
@@ -248,6 +252,7 @@ def run_case(ctx, d):
         nbat = -(-n // be)
         ctx.count("method", meth)
         ctx.count("kernel", d["kernel"])
+        ctx.count("offset", str(d.get("offset", 0)))
         ctx.count("n_batches", "1" if nbat == 1 else ("2-3" if nbat <= 3 else ("N" if be == 1 else "4+")))
         ctx.count("remainder_batch", "yes" if n % be else "no")
         ctx.count("N", "3-6" if n <= 6 else ("7-14" if n <= 14 else "15-30"))
@@ -470,6 +475,8 @@ def gen_cases(ctx):
              "dist": [None, "euclidean", "manhattan", "chebyshev"][int(rng.integers(4))],
              "proj": bool(rng.random() < 0.25), "distinct": meth == "greedy" or (meth == "dash" and rng.random() < 0.75),
              "bss": [refbs] + sorted(others), "case_seed": int(rng.integers(1 << 31))}
+        if kern == "matrix" and not d["proj"] and rng.random() < 0.5:
+            d["offset"] = 4096
         cases.append(d)
     if any(k_.get("signature") == SING_SIG for k_ in ctx.known):
         for meth, xs, m in (("greedy", [[6], [6]], 2), ("dash", [[6], [6], [-6], [-6], [-6]], 3)):
